@@ -23,7 +23,7 @@ def run_one(sid, tier, prop=None):
         if ap.returncode != 0:
             res.update({"outcome": "patch-does-not-apply", "detail": ap.stderr.decode()[-300:]})
             return res
-        env = dict(os.environ, VERIF_REPO=w)
+        env = dict(os.environ, VERIF_REPO=w, VERIF_EVIDENCE_DIR="/tmp/mutant-evidence")
         t0 = time.time()
         cp = subprocess.run([os.path.join(VERIF, "bin", "check"), prop, tier], cwd=VERIF, env=env,
                             stdout=subprocess.PIPE, stderr=subprocess.STDOUT)
